@@ -6,6 +6,7 @@ package lime
 // never executes these bodies.
 
 import (
+	"bytes"
 	"encoding/json"
 	"fmt"
 	"os"
@@ -309,3 +310,36 @@ func vStreamReadAll(s int, p []byte) int {
 // vSpins: number of background goroutines the engine retired because they were busy-looping
 // (not observable natively: 0).
 func vSpins() int { return 0 }
+
+// vJSONCanon: the JSON text with object keys sorted and insignificant space removed.
+func vJSONCanon(b []byte) string {
+	dec := json.NewDecoder(bytes.NewReader(b))
+	dec.UseNumber()
+	var v interface{}
+	if err := dec.Decode(&v); err != nil {
+		return "!" + err.Error()
+	}
+	out, err := json.Marshal(v)
+	if err != nil {
+		return "!" + err.Error()
+	}
+	return string(out)
+}
+
+// vStreamPutSplit: the frame of `whole` (size bytes, the last one a newline) with its padding blanks placed
+// inside the text, directly in front of the nested value `inner` (which occurs literally in whole).
+func vStreamPutSplit(s int, whole, inner []byte, size int) {
+	at := bytes.Index(whole, inner)
+	if at < 0 || size < len(whole)+1 {
+		vEmit("X:assumption-violated:split-frame")
+		vStreamPut(s, whole, size)
+		return
+	}
+	st := vStreams[s]
+	st.buf = append(st.buf, whole[:at]...)
+	for i := 0; i < size-len(whole)-1; i++ {
+		st.buf = append(st.buf, ' ')
+	}
+	st.buf = append(st.buf, whole[at:]...)
+	st.buf = append(st.buf, '\n')
+}
